@@ -851,9 +851,13 @@ class C05(FaultMonitorMixin, BaseMonitor):
                 raise Violation("C05", "toggle_raised", {f"{t}:{type(e).__name__}"},
                                 f"toggle #{n_} ({t}) raised {type(e).__name__}: {str(e)[:160]}", i, op_kind(op))
             self.res.count("toggle:" + t)
+            kind = (op.get("reads") or [None] * (n_ + 1))[n_] if n_ < len(op.get("reads") or []) else None
+            if kind:
+                st_, rt_ = self.execute({"op": "read", "kind": kind, "targets": op["read_targets"][n_], "with_calc": True})
+                self.res.count("fault:read_between_toggles" + ("" if st_ == "ok" else "_raised"))
             if not on:
                 self.snapshot_diff(before, i, op, "baseline_changed_by_toggles",
-                                   f"after toggles {op['toggles'][:n_ + 1]}")
+                                   f"after toggles {op['toggles'][:n_ + 1]}" + (f" and a {kind} read" if kind else ""))
         if on:
             mu.reset_values()
             self.snapshot_diff(before, i, op, "baseline_changed_by_toggles", f"after toggles {op['toggles']} + reset")
